@@ -708,6 +708,12 @@ func (st *Runtime) evalPrimaryExpressionGroup(node Expression) reflect.Value {
 	case NodeSliceExpr:
 		node := node.(*SliceExprNode)
 		baseExpression := st.evalPrimaryExpressionGroup(node.Base)
+		baseExpression, _ = indirect(baseExpression)
+		switch baseExpression.Kind() {
+		case reflect.Array, reflect.Slice, reflect.String:
+		default:
+			node.errorf("cannot slice %s", getTypeString(baseExpression))
+		}
 
 		var index, length int
 		if node.Index != nil {
@@ -730,11 +736,6 @@ func (st *Runtime) evalPrimaryExpressionGroup(node Expression) reflect.Value {
 			length = baseExpression.Len()
 		}
 
-		switch baseExpression.Kind() {
-		case reflect.Array, reflect.Slice, reflect.String:
-		default:
-			node.errorf("cannot slice %s", getTypeString(baseExpression))
-		}
 		if baseExpression.Kind() == reflect.Array && !baseExpression.CanAddr() {
 			// reflect can only slice addressable arrays
 			array := reflect.New(baseExpression.Type()).Elem()
